@@ -7,6 +7,10 @@ From Coupe Require Import Lib.Prelude Model.ArcSwap Proofs.ArcSwapCut Proofs.Arc
   Proofs.ArcSwapAcct Proofs.ArcSwapCaps.
 Open Scope Z_scope.
 
+Section WithW.
+Context {W : wops}.
+
+
 Lemma nth_opt_ex {A} (l : list A) i : (i < length l)%nat -> exists x, nth_opt l i = Some x.
 Proof. apply nth_opt_lt. Qed.
 
@@ -19,6 +23,29 @@ Proof.
     destruct (Nat.eqb_spec ip 0) as [->|N]; [reflexivity|].
     apply negb_true_iff, Nat.eqb_neq. lia. }
   rewrite E in H. destruct H.
+Qed.
+
+(* lengths of the merged vectors, whatever the weight arithmetic *)
+Lemma vec_add_len a b k : length a = k -> length b = k -> length (vec_add a b) = k.
+Proof.
+  revert b k. induction a as [|x a IH]; intros [|y b] k Ha Hb; cbn in *; try (subst; discriminate); auto.
+  destruct k as [|k]; [discriminate|]. f_equal. apply IH; lia.
+Qed.
+Lemma pw_sum_len k ws : Forall (fun w => length (w_pw w) = k) ws -> length (pw_sum k ws) = k.
+Proof.
+  unfold pw_sum. induction 1 as [|w ws Hw _ IH]; cbn [fold_right]; [apply repeat_length|].
+  now apply vec_add_len.
+Qed.
+Lemma pw_merge_len tc s pw k : length s = k -> length pw = k -> length (pw_merge tc s pw) = k.
+Proof.
+  revert pw k. induction s as [|x s IH]; intros [|y pw] k Hs Hp; cbn in *; try (subst; discriminate); auto.
+  destruct k as [|k]; [discriminate|]. f_equal. apply IH; lia.
+Qed.
+Lemma thread_max_len cf pw tm : thread_max cf pw = Some tm -> length tm = length pw.
+Proof.
+  revert tm. induction pw as [|x pw IH]; intros tm H; cbn [thread_max] in H; [now injection H as <-|].
+  destruct (cf_hr cf _ _); [|discriminate]. destruct (thread_max cf pw) as [r|]; [|discriminate].
+  injection H as <-. cbn. f_equal. now apply IH.
 Qed.
 
 Section Progress.
@@ -127,7 +154,7 @@ Proof.
   intros Hv Hip Hbt Hcut Hpw Hend. unfold decide. destruct (bg <=? 0).
   - intros [= <-]. split; cbn [set_pc set_md w_cut w_pw w_end]; auto.
   - destruct (nth_opt (cf_vw cf) v), (nth_opt (w_pw w) bt), (nth_opt tmax bt); try discriminate.
-    destruct (_ <? _); intros [= <-]; split; cbn [set_pc set_md w_cut w_pw w_end]; auto.
+    destruct (w_ltb _ _); intros [= <-]; split; cbn [set_pc set_md w_cut w_pw w_end]; auto.
     unfold pc_wf. cbn [set_pc w_pc]. auto.
 Qed.
 
@@ -138,7 +165,7 @@ Proof.
   destruct (nth_opt_ex (cf_vw cf) v) as [x ->]; [rewrite len_vw; exact Hv|].
   destruct (nth_opt_ex (w_pw w) bt) as [y ->]; [rewrite Hpw; exact Hbt|].
   destruct (nth_opt_ex tmax bt) as [z ->]; [rewrite Htm; exact Hbt|].
-  destruct (_ <? _); discriminate.
+  destruct (w_ltb _ _); discriminate.
 Qed.
 
 Lemma targets_lt ip tg rest : targets k ip = tg :: rest -> (tg < k)%nat /\ Forall (fun t => (t < k)%nat) rest.
@@ -188,7 +215,7 @@ Proof.
     destruct (nth_opt_ex (w_pw w) ip) as [a ->]; [rewrite Hpw; exact Hip|].
     destruct (nth_opt_ex (w_pw w) tg) as [b ->]; [rewrite Hpw; exact Htg|].
     destruct (Nat.ltb_spec v (length part)); [|lia].
-    destruct (nth_opt_ex (set_nth (w_pw w) ip (a - wv)) tg) as [c ->]; [rewrite set_nth_length, Hpw; exact Htg|].
+    destruct (nth_opt_ex (set_nth (w_pw w) ip (w_sub a wv)) tg) as [c ->]; [rewrite set_nth_length, Hpw; exact Htg|].
     discriminate.
   - destruct (Nat.ltb_spec v (length locks)); [discriminate|lia].
   - destruct todo as [|[nb ew] todo]; [destruct Hpc; congruence|].
@@ -317,7 +344,7 @@ Record pinv (st : gstate) : Prop := {
 Lemma thread_max_total pw : thread_max cf pw <> None.
 Proof.
   induction pw as [|x pw IH]; cbn [thread_max]; [discriminate|].
-  destruct (cf_hr cf (cf_cap cf - x) (cf_tc cf)) eqn:E; [|destruct (hr_total _ E)].
+  destruct (cf_hr cf (w_sub (cf_cap cf) x) (cf_tc cf)) eqn:E; [|destruct (hr_total _ E)].
   destruct (thread_max cf pw); [discriminate|congruence].
 Qed.
 
@@ -342,14 +369,14 @@ Proof.
   intros Hs Hws Hpw H. unfold end_pass in H.
   assert (Hlw : Forall (fun w => length (w_pw w) = k) (g_ws st)).
   { eapply Forall_impl; [|exact Hws]. intros w Hw. apply Hw. }
-  destruct (pw_sum_spec k _ Hlw) as [Ls _].
-  destruct (pw_merge_spec (cf_tc cf) _ _ k Ls Hpw) as [Lm _].
+  pose proof (pw_sum_len k _ Hlw) as Ls.
+  pose proof (pw_merge_len (cf_tc cf) _ _ k Ls Hpw) as Lm.
   destruct Hs as [Hll Hlp Hids Htm].
   destruct (_ =? 0).
   - injection H as <-. split; cbn [g_locks g_part g_ws g_pw g_tmax g_fin]; auto; try discriminate.
     split; auto.
   - destruct (thread_max cf _) as [tm|] eqn:Et; [|discriminate]. injection H as <-.
-    destruct (thread_max_spec _ _ _ Et) as [Ltm _].
+    pose proof (thread_max_len _ _ _ Et) as Ltm.
     split; cbn [g_locks g_part g_ws g_pw g_tmax g_fin]; auto.
     + split; auto. rewrite Ltm. exact Lm.
     + apply init_workers_wf. exact Lm.
@@ -382,8 +409,8 @@ Lemma init_pinv p0 st0 : length p0 = n -> Forall (fun x => (x < k)%nat) p0 ->
 Proof.
   intros Hl Hids. unfold init_state.
   destruct (thread_max cf _) as [tm|] eqn:Et; [|discriminate]. intros [= <-].
-  destruct (thread_max_spec _ _ _ Et) as [Ltm _].
-  assert (Ll : length (loads (cf_vw cf) p0 (cf_k cf)) = k) by (unfold loads; now rewrite map_length, seq_length).
+  pose proof (thread_max_len _ _ _ Et) as Ltm.
+  assert (Ll : length (wloads (cf_vw cf) p0 (cf_k cf)) = k) by (unfold wloads; now rewrite map_length, seq_length).
   split; cbn [g_locks g_part g_ws g_pw g_tmax g_fin]; auto.
   - split; auto; [now rewrite repeat_length|]. now rewrite Ltm.
   - now apply init_workers_wf.
@@ -418,3 +445,5 @@ Proof.
   destruct (step cf st t) as [st'|]; [eauto|congruence].
 Qed.
 End Progress.
+
+End WithW.
